@@ -562,6 +562,13 @@ func genMixedFanout(r *RNG, maxN int, mode int) []string {
 		}
 		level = next
 	}
+	if len(level) > 2*maxN {
+		// (the last level may multiply the count by up to twenty: keep a
+		// contiguous run of the sorted keys, which preserves the mixture)
+		level = sortUniq(level)
+		from := r.Intn(len(level) - 2*maxN)
+		level = level[from : from+2*maxN]
+	}
 	return sortUniq(level)
 }
 
@@ -740,6 +747,12 @@ func runC17(ctx *Ctx, idx int) {
 		}
 		if pl <= 0 {
 			continue
+		}
+		if n*pl > 1<<27 {
+			pl = (1 << 27) / n // (keep the prefixed copy of a big key set within 128 MiB)
+			if pl < 1 {
+				pl = 1
+			}
 		}
 		var p string
 		switch r.Intn(3) {
